@@ -5,3 +5,4 @@ pub mod rng;
 pub mod val;
 pub mod e1;
 pub mod xform;
+pub mod cnf;
